@@ -82,8 +82,18 @@ def _snapshot(obj):
     return {repr(k): [_canon_col(c) for c in cols] for k, cols in ch.items()}
 
 
-def _answer(obj, op):
-    tup = lambda s: tuple(common.dec_sym(t) for t in s)  # noqa
+_LIST_CTX = None     # the ONE list object of a `list_ctx` history (edited in place between queries), None otherwise
+
+
+def _answer(obj, op, shared_list=False):
+    if _LIST_CTX is None:
+        tup = lambda s: tuple(common.dec_sym(t) for t in s)  # noqa
+    elif shared_list:
+        def tup(s):           # the caller's own list, edited in place: same object, new contents
+            _LIST_CTX[:] = [common.dec_sym(t) for t in s]
+            return _LIST_CTX
+    else:
+        tup = lambda s: [common.dec_sym(t) for t in s]  # noqa  (a fresh list per query)
     name, arg = op[0], op[1] if len(op) > 1 else None
     if name == "clear":
         obj.clear_cache()
@@ -96,6 +106,8 @@ def _answer(obj, op):
         return sorted((repr(k), _num(v)) for k, v in p.items() if _num(v) != 0)
     if name == "call":
         if hasattr(obj, "eos"):
+            if _LIST_CTX is not None:
+                return _num(obj(tup(list(arg) + [EOS])))
             return _num(obj(tup(arg) + (EOS,)))
         return _num(obj(tup(arg)))
     if name == "chart":
@@ -105,6 +117,8 @@ def _answer(obj, op):
 
 
 def impl(case):
+    global _LIST_CTX
+    _LIST_CTX = [] if case.get("list_ctx") else None
     kind = case["kind"]
     obj, g = _make(kind, case["cfg"])
     g_snap = common.enc_cfg(g, "Float")
@@ -115,7 +129,7 @@ def impl(case):
         snap = not case.get("no_snapshot")
         before = _snapshot(obj) if snap else {}
         try:
-            a = _answer(obj, op)
+            a = _answer(obj, op, shared_list=True)
         except Exception as e:  # noqa
             a = {"exc": type(e).__name__, "msg": str(e)[:200]}
         after = _snapshot(obj) if snap else {}
@@ -162,7 +176,9 @@ def make_case(rng, i, tier):
             ops.append(rng.choice(ops))
             continue
         ops.append([rng.choice(qtypes), p])
-    return {"id": i, "kind": kind, "shape": shape, "cfg": desc, "ops": ops}
+    # contexts handed over as ONE Python list that the caller edits in place between queries (append / pop / overwrite)
+    list_ctx = rng.random() < 0.2
+    return {"id": i, "kind": kind, "shape": shape + ("+list_ctx" if list_ctx else ""), "cfg": desc, "ops": ops, "list_ctx": list_ctx}
 
 
 def long_cases():
